@@ -283,6 +283,38 @@ def seeded(names, budget_s=60):
     return 0 if not missed else 1
 
 
+def legal(names, budget_s=55):
+    """Negative controls: behaviour-preserving refactorings under /verif/seeded/legal/<id>/; the quick
+    checks listed in their meta.json must exit 0 on them."""
+    root = os.path.join(VERIF, "seeded", "legal")
+    names = names or sorted(os.listdir(root))
+    bad = []
+    for name in names:
+        meta = json.load(open(os.path.join(root, name, "meta.json")))
+        scratch = tempfile.mkdtemp(prefix="tsim-legal-")
+        try:
+            shutil.copytree(os.path.join(os.environ.get("TSIM_REPO", "/repo"), "src"), os.path.join(scratch, "src"))
+            r = subprocess.run(["patch", "-p1", "-s", "-i", os.path.join(root, name, "patch.diff")],
+                               cwd=scratch, capture_output=True, text=True)
+            if r.returncode != 0:
+                print(f"legal {name}: patch does not apply")
+                bad.append(name)
+                continue
+            for prop in meta["checks"]:
+                env = dict(os.environ, TSIM_TENSORA_SRC=os.path.join(scratch, "src"), TSIM_NO_EVIDENCE="1",
+                           VERIF_SEED=os.environ.get("VERIF_SEED", "0"))
+                p = subprocess.run([os.path.join(VERIF, "bin", "check"), prop, "quick"], env=env,
+                                   capture_output=True, text=True, cwd=VERIF)
+                print(f"legal {name:8s} {prop}: exit={p.returncode}", flush=True)
+                if p.returncode != 0:
+                    bad.append(f"{name}/{prop}")
+                    print("    ", p.stdout[-600:].replace("\n", "\n     "))
+        finally:
+            shutil.rmtree(scratch, ignore_errors=True)
+    print(f"legal: alarms on {bad}" if bad else "legal: no alarm on any negative control")
+    return 1 if bad else 0
+
+
 def main(argv=None):
     argv = list(sys.argv[1:] if argv is None else argv)
     ensure_shim_built()
@@ -295,6 +327,8 @@ def main(argv=None):
         return determinism(engines, n)
     if argv[0] == "seeded":
         return seeded(argv[1:], int(os.environ.get("TSIM_SEEDED_BUDGET_S", "60")))
+    if argv[0] == "legal":
+        return legal(argv[1:])
     if argv[0] == "mutants":
         return mutants(argv[1:], int(os.environ.get("TSIM_MUTANT_BUDGET_S", "45")))
     print(__doc__)
